@@ -263,6 +263,9 @@ SEQS = {
              ("a_times_x", ["c2", "s2", "c1"]), ("inc_a_plus_x", ["s3", "c2"])],
     "seq3": [("x_times_y", ["a3", "a1", "a2"]), ("setval_x", ["a2", "a3"]), ("inc_ax_plus_y", ["s1", "a1", "a2"]),
              ("a_plus_x", ["c2", "s3", "c1"]), ("inc_x_divideby_a", ["b1", "s2"]), ("setval_c", ["b2", "s3"])],
+    # a reduction whose result a later built-in of the same invoke uses (fusing them would use partial sums)
+    "seq4": [("x_innerproduct_y", ["s1", "a1", "a2"]), ("setval_x", ["a3", "a1"]), ("inc_a_times_x", ["s1", "a3"])],
+    "seq5": [("sum_x", ["s2", "b1"]), ("inc_a_plus_x", ["s2", "b2"]), ("setval_x", ["b3", "b2"])],
 }
 
 
@@ -534,7 +537,8 @@ def main():
              for dm, ax in ((False, False), (True, False))]
     results = core.pmap(work, jobs)
     mjobs = [(sq, dm, ax, plan, K + 1) for sq in SEQS for dm, ax in ((False, False), (True, False), (True, True))
-             for plan in ("none", "forwards", "backwards")]
+             for plan in ("none", "forwards", "backwards")
+             if not (sq in ("seq4", "seq5") and ax)]          # (reductions always run over owned DoFs)
     results += core.pmap(work_multi, mjobs)
     flat = []
     for r in results:
